@@ -40,6 +40,10 @@ type peeringRequestState struct { //nolint:maligned
 	client  bool
 	session *state.Session
 
+	// setupIP is set while this peering request holds the link setup slot of
+	// the remote router.
+	setupIP netip.Addr
+
 	remoteIP      netip.Addr
 	remoteVersion string
 	remoteLite    bool
@@ -194,6 +198,14 @@ func (state *peeringRequestState) handlePeeringRequest(in frame.Frame) (frame.Fr
 	if state.peering.GetLink(r.Address.IP) != nil {
 		return nil, errors.New("already connected to this router")
 	}
+
+	// Check if we are already setting up a link with this router.
+	// The key exchange uses the session of the remote router, which must not be
+	// shared by two link setups at the same time.
+	if !state.peering.startLinkSetup(r.Address.IP) {
+		return nil, errors.New("already setting up a link with this router")
+	}
+	state.setupIP = r.Address.IP
 
 	// Get session and add router if necessary.
 	session := state.peering.instance.State().GetSession(remoteAddr.IP)
@@ -409,6 +421,15 @@ func (state *peeringRequestState) handlePeeringAck(in frame.Frame) error {
 	}
 
 	return nil
+}
+
+// done releases the link setup slot of the remote router, if held.
+// It must be called when the link setup has ended, whether it succeeded or not.
+func (state *peeringRequestState) done() {
+	if state.setupIP.IsValid() {
+		state.peering.finishLinkSetup(state.setupIP)
+		state.setupIP = netip.Addr{}
+	}
 }
 
 func (state *peeringRequestState) finalize() (*state.EncryptionSession, error) {
